@@ -183,7 +183,7 @@ func init() {
 	h.Register(&h.Prop{
 		ID: "C01", Level: "exploration",
 		Rule: fwWorkload + "oracle per DATA step: sends only on faces holding a pending Interest the Data satisfies (token echo or name/CanBePrefix), exactly one byte-identical copy per surely-live pending Interest on faces other than the arrival face with the token that face supplied, nothing for unknown 6-byte tokens, entry consumed afterwards; per INTEREST step answered from cache: one Data, arrival face only, right token, satisfying name, last inserted bytes; " +
-			"distinct = (match branch, #entries, #in-records, arrival-face-is-downstream, #faces with a required copy) and cache-answer classes",
+			"several threads (4 batches): on a running two-thread mini daemon two local consumers ask for names spread over both forwarding threads, the upstream peer answers with Data that echoes the PIT token or carries none, every consumer that asked must get exactly one copy; distinct = (match branch, #entries, #in-records, arrival-face-is-downstream, #faces with a required copy) and cache-answer classes",
 		Assumptions: []string{"tokens of forwarded Interests are learned from observation, never predicted", "expiry-dependent expectations use measured times with a 20 ms guard band; inside it 0 or 1 copies are accepted", "hooks: fw/fw/verif_hooks.go, fw/table/verif_hooks.go"},
 		Batches:     func(t bool) int { return 16 },
 		ChildTimeoutS: func(t bool) int {
@@ -192,7 +192,12 @@ func init() {
 			}
 			return 500
 		},
-		Run:         fwRunner("C01", 200, 1500),
+		Run: func(c *h.Ctx) {
+			fwRunner("C01", 200, 1500)(c)
+			if c.Batch < 4 {
+				c01Threads(c) // last: leaves a running daemon behind in this child process
+			}
+		},
 		MinDistinct: 25,
 		Floors:      map[string]int64{"data_forwarded": 200, "data_steps": 1000},
 	})
